@@ -205,6 +205,13 @@ def gen_range_cases(c):
         if len(l) <= 5:
             for s in others:
                 cases.append((9, s, l))
+    # every delimiter byte 0..255: all lines over {x, delimiter} up to length 4 (x differs from the delimiter)
+    for d in range(256):
+        x = 120 if d != 120 else 121
+        for n in range(0, 5):
+            for t in itertools.product((x, d), repeat=n):
+                for s in ((b"2", b"1,3", b"2-") if c.volume == "quick" else (b"1", b"2", b"1,3", b"2-", b"-2", b"2-3")):
+                    cases.append((d, s, bytes(t)))
     # random: longer lines, other delimiters (incl. bytes >= 0x80), larger field numbers, multi-byte content
     delims = [9, 32, 44, 0x7C, 0xFF, 0x80, 1]
     for _ in range(4000 if c.volume == "quick" else 40000):
@@ -491,7 +498,7 @@ def main(argv):
     shutil.rmtree(SCRATCH, ignore_errors=True)
     return c.finish(level="proof",
                     rule="RangeFields: every line over {a,b,TAB} up to length 7 (thorough: 9) x the 31 selections over fields {1,2,3,4,5-} (quick: length 7 with a third of the selections), 15 further "
-                         "lists on all lines up to length 5, random longer lines x random lists x 7 delimiters (incl. bytes >= 0x80); IndividualFields on a quarter of them; "
+                         "lists on all lines up to length 5, all 256 delimiter bytes x every line over {x, delimiter} up to length 4 x 3 (6) lists; random longer lines x random lists x 7 delimiters (incl. bytes >= 0x80); IndividualFields on a quarter of them; "
                          "ParseFields/DefragmentFields: every list of <= 3 ranges over field numbers <= 4, a malformed corpus (signs, blanks, 0, N-M-K, trailing/leading/double commas, "
                          "numbers around 2^32 and 2^64) and random strings; tools: dedupe -f / cache -k / shard -f on line pairs with identical / different selected fields, malformed lists. "
                          "Oracle: Python cut semantics (split/select/join) and a regex cut grammar. distinct = distinct non-empty cases",
